@@ -8,7 +8,8 @@
     (harness/vh/interp.py) from inputs chosen around every comparison constant and sign bit; the final variables
     (marker bits `res |= 1 << k`, marker stores) and all owned registers are compared with the structured reference
     semantics in Python big integers (`dsl_cond.run_ref`), inside the precondition that the compared values fit the
-    narrowest width involved;
+    narrowest width involved -- signed range if the PROPERTY types an operand signed (dsl.psigned on the program text), else
+    unsigned range; the implementation's own `signed` attributes decide neither the precondition nor a class;
 (c) replay of one stored case."""
 from .. import dsl, dsl_cond as dc, interp
 from . import c01
@@ -24,9 +25,6 @@ CLASSES = ["widen-in-place", "narrow-reg-in-64",
 
 
 # ----------------------------------------------------------------------------- per-atom precondition and class refinement
-narrow_leaf = dc.narrow_leaf
-
-
 def fits_s(v, w):
     return -(1 << (w - 1)) <= v < (1 << (w - 1))
 
@@ -50,26 +48,29 @@ def theorem_pre(kind, info, a, b):
     return fits_u(a, 64) and fits_u(b, 64)
 
 
-def atom_status(E, at, regs, varat):
-    """(inside the property's precondition?, classes fired on this input, inside the theorem's precondition?) for
-    one atom ('atom', kind, op, l, r)"""
+def atom_status(E, at, cj, regs, vals, varat, fm):
+    """(inside the property's precondition?, classes fired on this input, inside the theorem's precondition?) for one
+    atom: `at` = ('atom', kind, op, l, r) as built, `cj` = the JSON atom it was built from.
+    The precondition and the classes are decided on the PROGRAM TEXT: operand values by the reference semantics, signedness
+    by dsl.psigned, W by the declared sizes.  The implementation's own `signed` attributes are not consulted (a wrong typing
+    in the implementation would otherwise move its failing inputs outside the precondition or into a class)."""
     _, kind, op, l, r = at
+    ja, jb = dc.atom_operands(cj, kind)
+    sg = dsl.psigned(ja, fm) or dsl.psigned(jb, fm)
     try:
-        a, b = c01.eval_obj(E, l, regs, varat), c01.eval_obj(E, r, regs, varat)
+        va, vb = dsl.eval_ref(ja, regs, vals), dsl.eval_ref(jb, regs, vals)
     except (dsl.Outside, KeyError):
         return False, set(), False
-    info = dc.atom_info(E, l, r)
-    W = 32 if (narrow_leaf(E, l) or narrow_leaf(E, r)) else 64
-    if info["sg"]:
-        inside = all(-(1 << (W - 1)) <= v < (1 << (W - 1)) for v in (a, b))
-    else:
-        inside = all(0 <= v < (1 << W) for v in (a, b))
-    shape = dc.atom_classes(E, l, r)
+    W = dsl.pwidth([ja, jb], fm)
+    fits = fits_s if sg else fits_u
+    inside = all(fits(v, W) for v in va | vb)
+    info = dc.atom_info(E, l, r, sg)
+    shape = dc.atom_classes(E, l, r, sg)
     fired = set(shape) - {"narrow-reg-in-64", "widen-in-place", "const-left-32"}
     if "const-left-32" in shape:
-        in32 = (lambda v: -(1 << 31) <= v < (1 << 31)) if info["sg"] else (lambda v: 0 <= v < (1 << 32))
+        in32 = (lambda v: -(1 << 31) <= v < (1 << 31)) if sg else (lambda v: 0 <= v < (1 << 32))
         # the operand is computed in 32 bits and makes the whole comparison a 32-bit one: either value may be cut
-        if not (in32(a) and in32(b)):
+        if not all(in32(v) for v in va | vb):
             fired.add("const-left-32")
     if "widen-in-place" in shape:
         x = l
@@ -87,12 +88,18 @@ def atom_status(E, at, regs, varat):
         for x, isleft in ((l, True), (r, False)):
             if dc.is_short_reg(E, x) and not info["short"] and not (isleft and info["widen"]) and (isleft or not info["r_imm"]):
                 raw = regs[x.no] & M64
-                seen = dsl.sx(raw, 64) if info["sg"] else raw
-                if seen != dsl.view_value("sw" if x.signed else "w", raw):
+                seen = dsl.sx(raw, 64) if sg else raw
+                if seen != dsl.view_value(dsl.reg_view(x), raw):
                     hit = True
         if hit:
             fired.add("narrow-reg-in-64")
-    return inside, fired, theorem_pre(kind, info, a, b)
+    # the theorem (C03_partial) speaks about the comparison objects as built: its precondition takes their own attributes
+    try:
+        a, b = c01.eval_obj(E, l, regs, varat), c01.eval_obj(E, r, regs, varat)
+        thm = theorem_pre(kind, dc.atom_info(E, l, r, l.signed or r.signed), a, b)
+    except (dsl.Outside, KeyError):
+        thm = False
+    return inside, fired, thm
 
 
 def operands_pre(cj, regs, vals, fm):
@@ -103,24 +110,20 @@ def operands_pre(cj, regs, vals, fm):
     if k in ("and", "or"):
         return operands_pre(cj[1], regs, vals, fm) and operands_pre(cj[2], regs, vals, fm)
     es = [cj[1]] if k == "truth" else [cj[2], cj[3]]
-
-    def narrow(l):
-        return l[0] in ("w", "sw") or (l[0] == "v" and dsl.FSIZE[fm[l[1]]] <= 4)
-    W = 32 if any(narrow(l) for e in es for l in dsl.leaves(e)) else 64
+    W = dsl.pwidth(es, fm)
     return all(dsl.pre_holds(e, regs, vals, W) for e in es)
 
 
-def cond_status(E, at, regs, varat):
-    k = at[0]
-    if k == "atom":
-        return atom_status(E, at, regs, varat)
-    if k == "not":
-        return cond_status(E, at[1], regs, varat)
-    if k in ("and", "or"):
-        i1, f1, t1 = cond_status(E, at[1], regs, varat)
-        i2, f2, t2 = cond_status(E, at[2], regs, varat)
-        return i1 and i2, f1 | f2, t1 and t2
-    return False, set(), False
+def cond_status(E, at, cj, regs, vals, varat, fm):
+    """all atoms of one condition (JSON `cj`, built structure `at`)"""
+    pairs = list(dc.atom_pairs(cj, at))
+    if not pairs:
+        return False, set(), False
+    inside, fired, thm = True, set(), True
+    for aj, a in pairs:
+        i, f, t = atom_status(E, a, aj, regs, vals, varat, fm)
+        inside, fired, thm = inside and i, fired | f, thm and t
+    return inside, fired, thm
 
 
 # ----------------------------------------------------------------------------- inputs
@@ -182,7 +185,7 @@ def check_program(ctx, prog, built, insns, inputs_list, proved=False):
         def on_cond(idx, cj, state):
             vals = state.vals()
             varat = lambda base, off, fmt: vals[byloc[(base, off)]]
-            inside, fired, thm = cond_status(E, built.cobjs[idx][1], state.regs, varat)
+            inside, fired, thm = cond_status(E, built.cobjs[idx][1], cj, state.regs, vals, varat, R.fm)
             inside = inside and operands_pre(cj, state.regs, vals, R.fm)
             seen["thm"] = seen["thm"] and thm
             seen["inside"] = seen["inside"] and inside
@@ -260,6 +263,8 @@ def gen_programs(ctx):
         out.append(("owners", dc.gen_owners(rng)))
     for _ in range(ctx.n(200, 4000)):
         out.append(("unary-operand", dc.gen_unary(rng)))
+    for _ in range(ctx.n(400, 8000)):
+        out.append(("typing", dc.gen_typing(rng)))
     return out
 
 
@@ -360,6 +365,9 @@ THEOREMS = [
     "Ebv.C03.C03_core", "Ebv.C03.C03_partial", "Ebv.C03.C03_full_refuted",
     "Ebv.C03.before_fix_u64_vs_negative_short", "Ebv.C03.narrow_reg_in_64_refuted", "Ebv.C03.widen_in_place_refuted",
     "Ebv.C03.before_fix_unary_in_place", "Ebv.C03.before_fix_unary_32_in_64", "Ebv.C03.const_left_32_refuted",
+    "Ebv.Gen.elab_psigned", "Ebv.Gen.elabC_cmp_sg", "Ebv.Gen.elabC_truth_sg",
+    "Ebv.C03.comparison_typing_exact", "Ebv.C03.truth_typing_exact",
+    "Ebv.C03.before_fix_sum_signed", "Ebv.C03.before_fix_sum_merged", "Ebv.C03.before_fix_and_signed",
 ]
 TRUSTED = ["hand-written model Ebv.Gen + Ebv.Model.GenCond of the comparison / with-block code generator (ebpfcat/ebpf.py: comparison, "
            "SimpleComparison, AndComparison, AndOrComparison, InvertComparison, Comparison.__enter__/__exit__/Else, Elser, jumpIf), tied "
@@ -371,14 +379,20 @@ ASSUMPTIONS = ["registers in `owned` are declared by assigning EBPF.owners befor
                "flat byte memory (bounds: C05); all jumps are forward, fuel = code length + 1",
                "oracle precondition = property text: per comparison W = 32 if an operand mentions a variable of at most 4 bytes or a "
                "w/sw register view, else 64; a signed comparison needs both values in the signed W-bit range, an unsigned one in "
-               "[0, 2^W); the theorem's precondition (atomPre) is weaker; runs that satisfy the theorem's hypotheses may not fail at all",
+               "[0, 2^W); signed = the property types one operand signed (dsl.psigned on the program text: leaves by declared kind, a "
+               "result signed as soon as one operand is; -a signed, abs unsigned, a & b signed iff both are, int (op) int one constant) "
+               "-- never the implementation's `signed` attribute; the same typing feeds the class predicates; comparison_typing_exact "
+               "proves that the model builds exactly this comparison; the theorem's precondition (atomPre) is weaker; runs that "
+               "satisfy the theorem's hypotheses may not fail at all",
                "marker assignments: res |= 1 << k, constant stores, r-view register assignments; registers are compared only if the "
                "generator still owns them at the end"]
 RULE = ("statement programs = JSON (dsl_cond.py): the atom family (6 comparison operators x 13 leaf kinds x 13 leaf kinds, bit tests x "
         "14 masks x 3 spellings, expressions as conditions; each x {with, with/Else, jumpIf, jumpIf/Else}), sampled (quick) or "
         "enumerated (thorough); random trees: nesting <= 3, and/or/not depth <= 3, compound operands (+ - * | ^ & neg abs, int on "
         "either side, Sum - expression, Sum +- int, one Sum object used twice with different added constants), ownership at joins, "
-        "the unary-operand family (abs / unary minus of every leaf kind against a constant or a leaf); inputs = boundary values around every constant in the program (c-1, c, c+1, -c), "
+        "the unary-operand family (abs / unary minus of every leaf kind against a constant or a leaf), the typing family "
+        "(a comparison with an operand whose signedness an operator rule decides: register +- int in every spelling, & of signed "
+        "/ mixed / constant operands, unsigned differences, neg, abs); inputs = boundary values around every constant in the program (c-1, c, c+1, -c), "
         "sign bits and width edges, small values, all-equal vectors; non-trivial = accepted with at least one condition")
 LEVEL_TEXT = ("Lean 4 proof by structural induction of a hand-written model of the comparison / with-block generator: closed-segment "
               "lemmas for code with forward jumps; cond_correct (induction on the condition tree: the code of `compare negative`, "
@@ -401,6 +415,10 @@ LEVEL_NOTE = ("trusted: Lean kernel + propext/Classical.choice/Quot.sound; model
               "cond_correct / C03_partial hold without these exclusions. Sum - expression operands "
               "(was class sum-minus) are inside elabC_truth / C03_partial since Sum.__sub__ was repaired; abs operands of 32-bit "
               "comparisons (was class abs-32) are judged by the oracle without excuse since Absolute was repaired; abs_segment / "
-              "abs_top_correct prove the abs code at both widths (abs inside cond_correct's operands stays outside Expr.frag).")
+              "abs_top_correct prove the abs code at both widths (abs inside cond_correct's operands stays outside Expr.frag). "
+              "Typing repaired with C01 (masked before: the oracle took signedness from the implementation's objects): register +- int "
+              "forgot the register's signedness (`with sr2 + 1 < 5` was unsigned), followed the merged number, & of two signed "
+              "operands was unsigned; regression witnesses before_fix_sum_signed / _sum_merged / _and_signed; "
+              "comparison_typing_exact: the comparison built is signed iff the property types an operand signed.")
 TECHNIQUE = "Lean 4 structural induction over condition trees and statements (compiler correctness) + exact opcode-list correspondence"
 DESIGN_REF = "§4 C03"
